@@ -209,7 +209,7 @@ pub fn run(tier: Tier) -> i32 {
         }
         let stride = tier.pick(2048u64, 64u64);
         for f in [
-            Box::new(crate::universe::EpFamily { extra: crate::universe::Extra::EnemySlider }) as Box<dyn crate::universe::Family>,
+            Box::new(crate::universe::EpFamily { extra: crate::universe::Extra::EnemySlider, pre_push: false }) as Box<dyn crate::universe::Family>,
             Box::new(crate::universe::CastleFamily { extras: 1, opp_rights: false, opp_to_move: false }),
             Box::new(crate::universe::PromoFamily::full()),
         ] {
